@@ -141,6 +141,7 @@ class TypedGen:
 			'enumerate': True, 'closures': True, 'lambdas': True, 'try': True, 'classes': True, 'enums': True, 'floats': True,
 			'str_slice': True, 'list_slice': True, 'comps': True, 'tuples': True, 'dicts': True, 'props': True, 'classmethods': True, 'inherit': True,
 			'defaults': True, 'str_methods': True, 'while': True, 'list_methods': True, 'nested_ternary': True,
+			'destructure_literal': True, 'str_lit_concat': True,
 		}
 		if opts:
 			self.o.update(opts)
@@ -149,10 +150,14 @@ class TypedGen:
 	def fresh(self, pool: list[str], scope: dict) -> str:
 		for _ in range(20):
 			n = self.r.choice(pool)
-			if n not in scope and n not in self.funcs and n not in self.classes:
+			if n not in scope and n not in self.funcs and n not in self.classes and n not in self.enums:
 				return n
-		self.uid += 1
-		return f'{pool[0]}{self.uid}'
+		for _ in range(50):
+			self.uid += 1
+			n = f'{pool[0]}{self.uid}'
+			if n not in scope and n not in self.funcs and n not in self.classes and n not in self.enums:
+				return n
+		raise RuntimeError('no fresh name')
 
 	def emit(self, line: str) -> None:
 		self.lines.append(line)
@@ -395,6 +400,10 @@ class TypedGen:
 		if x < 0.6:
 			self.f.add('str-concat')
 			a, b = self.str_expr(scope, d - 1), self.str_expr(scope, d - 1)
+			if a[0].startswith("'") and a[0].endswith("'") and a[0].count("'") == 2 and b[0].startswith("'") and b[0].count("'") == 2:
+				if not self.o['str_lit_concat']:
+					return a
+				self.f.add('str-literal+literal')
 			return f'{a[0]} + {b[0]}', a[1] + b[1]
 		if x < 0.8:
 			self.f.add('cast:str')
@@ -563,6 +572,13 @@ class TypedGen:
 			a, b = self.fresh(NAMES_INT, scope), self.fresh(NAMES_STR, scope)
 			if a != b:
 				e = self.expr(('tuple', (INT, STR)), scope, 1)
+				if not self.o['destructure_literal']:
+					tv = self.fresh(['pair', 'tup', 'duo'], scope)
+					self.emit(f'{ind}{tv} = {e}')
+					scope[tv] = Var(tv, ('tuple', (INT, STR)))
+					e = tv
+				else:
+					self.f.add('destructure-literal')
 				self.emit(f'{ind}{a}, {b} = {e}')
 				scope[a] = Var(a, INT)
 				scope[b] = Var(b, STR)
@@ -1012,7 +1028,7 @@ class TypedGen:
 			cls.methods.append(m)
 			self.f.add('method')
 		if self.o['props'] and r.random() < 0.5:
-			pname = self.fresh(['double', 'half_ok', 'size'], {m.name: 1 for c in self.mro(cls) for m in c.methods + c.props})
+			pname = self.fresh(['twice', 'half_ok', 'span'], {m.name: 1 for c in self.mro(cls) for m in c.methods + c.props})
 			self.emit('\t@property')
 			self.emit(f'\tdef {pname}(self) -> int:')
 			e = self.clampi(self.int_expr(dict(fscope), 2))
